@@ -82,6 +82,17 @@ let parse_xop () =
       XPersist (bt, req, parse_op ())
   | _ -> XBase (parse_op ())
 
+(* single-link operations (Store/LinkOne.v): AL1 / RL1 <store> <id> <linkfield> <k> <target>*k = one LinkCollection.AddLink /
+   RemoveLink call per target ; LQ <store> <id> <setfield> <k> <target>*k = membership probes inside the transaction *)
+let parse_lop () =
+  let link mk = ignore (next ()); let s = next_name () in let i = next_hex () in let lf = next_name () in
+    let k = next_int () in let ts = repeat k next_hex in mk s i lf ts in
+  match peek () with
+  | Some "AL1" -> link (fun s i lf ts -> LAddLink (s, i, lf, ts))
+  | Some "RL1" -> link (fun s i lf ts -> LRemoveLink (s, i, lf, ts))
+  | Some "LQ" -> link (fun s i lf ts -> LIsLinked (s, i, lf, ts))
+  | _ -> LBase (parse_xop ())
+
 (* a transaction whose body contains only plain operations runs through run_tx exactly as before *)
 let parse_tx () =
   (match next () with "TX" -> () | t -> failwith ("expected TX got " ^ t));
@@ -90,7 +101,11 @@ let parse_tx () =
   let nv = next_int () in
   let vetoes = repeat nv (fun () -> let s = next_name () in let c = parse_change () in let i = next_hex () in ((s, c), i)) in
   let no = next_int () in
-  let xops = repeat no parse_xop in
+  let lops = repeat no parse_lop in
+  if List.exists (function LBase _ -> false | _ -> true) lops then
+    `Linked { ltx_sys = sys; ltx_vetoes = vetoes; ltx_ops = lops; ltx_precommit_fails = pcf }
+  else
+  let xops = List.map (function LBase x -> x | _ -> XBase OFail) lops in
   (* C07: pseudo vetoes "@c07pc" / "@c07open" = actions registered through contexts derived from the transaction's
      context (Store/TxCtx.v; token format in harness/cmd/storageharness/store_c07_ctx.go) *)
   let pseudo nm = List.filter_map (fun ((s, _), i) -> if string_of_name s = nm then Some (string_of_name i) else None) vetoes in
@@ -182,12 +197,13 @@ let () =
       let buf = Buffer.create 4096 in
       while peek () <> None do
         let t = parse_tx () in
-        let (((rs, committed), st'), evs) = (match t with
-          | `Plain t -> run_tx sch fuel !st t
-          | `Derived t -> run_xtx sch fuel !st t
+        let ((((rs, bss), committed), st'), evs) = (match t with
+          | `Plain t -> let (((rs, c), s'), e) = run_tx sch fuel !st t in ((((rs, []), c), s'), e)
+          | `Derived t -> let (((rs, c), s'), e) = run_xtx sch fuel !st t in ((((rs, []), c), s'), e)
+          | `Linked t -> run_ltx sch fuel !st t
           | `Ctx (sys, vetoes, p) ->
               let o = ctx_update sch fuel !st sys vetoes p in
-              (((o.co_results, o.co_committed), o.co_state), o.co_events)) in
+              ((((o.co_results, []), o.co_committed), o.co_state), o.co_events)) in
         st := st';
         Buffer.add_string buf "TX R";
         List.iter (fun r -> Buffer.add_char buf ' '; Buffer.add_string buf (kind_str r)) rs;
@@ -195,6 +211,9 @@ let () =
         let evl = List.sort compare (List.map (fun e ->
           Printf.sprintf "EV:%s:%s:%s:%s" (string_of_name e.ev_store) (change_str e.ev_change) (hex_of_bytes e.ev_id) (bool_str e.ev_parent)) evs) in
         List.iter (fun e -> Buffer.add_char buf ' '; Buffer.add_string buf e) evl;
+        (* the bools the single-link operations observed: LB:<operation index>:<b>,<b>.. *)
+        List.iteri (fun k bs -> if bs <> [] then
+          Buffer.add_string buf (Printf.sprintf " LB:%d:%s" k (String.concat "," (List.map (fun b -> if b then "1" else "0") bs)))) bss;
         List.iter (fun d ->
           let nm = string_of_name d.sd_name in
           let pr tag l = Buffer.add_string buf (Printf.sprintf " %s:%s:%s" tag nm (String.concat "," (List.map hex_of_bytes l))) in
